@@ -93,3 +93,17 @@ Fixpoint q_desc (l : list Qc) : bool :=
   match l with x :: ((y :: _) as l') => qleb y x && q_desc l' | _ => true end.
 Definition q_nonneg (l : list Qc) : bool := forallb (fun x => qleb q0 x) l.
 Definition q_all_one (l : list Qc) : bool := forallb (fun x => qclose tol9 x q1) l.
+(* a component with a zero column (in any factor) carries weight 0 *)
+Definition q_zero_col (A : list (list Qc)) (r : nat) : bool := forallb (fun x => Qc_eq_bool x q0) (col q0 A r).
+Definition qk_zero_weight (K : ktensor Qc) : bool :=
+  forallb (fun r => negb (existsb (fun A => q_zero_col A r) (kfactors K)) || Qc_eq_bool (nth r (kweights K) q0) q0)
+          (seq 0 (krank K)).
+(* fixsigns(other), sign-agreement normal form evaluated on an observed result O: per component of the reference, no mode
+   correlates negatively with the (normalised) reference when the number of negative correlations was even, at most one
+   when it was odd *)
+Definition qk_neg_scores (A B : ktensor Qc) (r : nat) : nat := length (filter q_neg (fso_scores q0 Qcplus Qcmult A B r)).
+Definition qk_sign_nf (K L O : ktensor Qc) : bool :=
+  let A := qk_normalize 2 WNone false None K in
+  let B := qk_normalize 2 WNone false None L in
+  forallb (fun r => let c := qk_neg_scores A B r in let c' := qk_neg_scores O B r in
+                    if Nat.even c then Nat.eqb c' 0 else Nat.leb c' 1) (seq 0 (krank B)).
